@@ -140,6 +140,8 @@ def run_case(ctx, f, c):
                 return (REF, [Obj("dep")], UNDEF, False)
             return (None, None, args[1] if len(args) > 1 else NEW, False)
         if fn == "hasattr":
+            if len(args) == 2 and args[0] is NEW:
+                return args[1] in NEW.attrs         # the assigned value is a plain object: it has no attributes of its own
             return False if (len(args) == 2 and args[1] == "set_hook") else True
         if fn == "getattr" and len(args) >= 2 and isinstance(args[0], Obj):
             return args[0].attrs.get(args[1], args[2] if len(args) > 2 else TOP)
@@ -200,6 +202,7 @@ ASPECTS = {
     "C03": "after the store: update_deps, every value watcher in precedence order with event(old, new), flush iff not batching",
     "C04": "while a batch is open every assignment still hands its event to every watcher, also when an equal event (same transition) is already pending: the flush keeps the LAST event per parameter, so a skipped one leaves the watchers with a stale value",
     "C05": "everything an assignment does besides notifying (store, link install/drop, post_setter, dependency rebinding) is done before the first watcher runs: a watcher that raises must not leave the assignment half applied (value stored, link unchanged)",
+    "C07": "every assignment on an initialized instance re-resolves the dependencies that pass through the assigned parameter, whatever the new value is (detaching to None or to a plain value must take the watchers off the detached object), after the store and before the watchers run",
     "C08": "relink(ref) iff a reference was assigned; relink(None) iff a plain value overrides an existing link (not for the sync's own write)",
     "C10": "a plain value that overrides an existing link ends it -- relink(None) is what cancels the pending asynchronous evaluation -- and a new reference replaces the old one (not for the sync's own write)",
     "C12": "class route writes the class default only, instance routes the instance store only -- and always record the value for the instance, also when it is the object the class default currently is",
@@ -246,7 +249,11 @@ def classify(c, got, want):
         out.add("C03")
         if c["batch"] and [t for t in gd if t.startswith("dispatch")] != [t for t in wd if t.startswith("dispatch")]:
             out.add("C04")
+    if ("update_deps" in wtrace) != ("update_deps" in gtrace) and not gexc and not wexc:
+        out.add("C07")
     first_notify = next((i for i, t in enumerate(gtrace) if t.startswith(("dispatch", "flush"))), None)
+    if first_notify is not None and "update_deps" in gtrace[first_notify:]:
+        out.add("C07")
     if first_notify is not None:
         late = [t for t in gtrace[first_notify:] if t.startswith(("relink", "post_setter", "update_deps"))]
         if late:
